@@ -21,7 +21,7 @@ CHUNK = 128
 SHRINK_LISTS = ("ops",)
 PROBES = {"C15": ["refpoint-partial", "state_dict-roundtrip", "deepcopy-continue", "lti:broadcast-constants", "custom-forward", "ltv-property-only", "refpoint-same-state-new-time", "jump-back", "jump-forward", "jump-tensor", "reset-nonzero", "refpoint-default",
                   "refpoint-explicit", "read-after-call-since-refpoint", "read-after-jump-since-refpoint",
-                  "ltv-wrap", "batched-lti", "float-reftime"]}
+                  "ltv-wrap", "batched-lti", "float-reftime", "call:keyword-arguments", "read:under-no_grad", "lti:systems-x-states-broadcast"]}
 TOL = 1e-10
 
 
@@ -32,6 +32,7 @@ def generate(seed, tier, prop="C15"):
            "batch": r.choice([0, 0, 1, 2, 3]) if kind != "NLS" else 0, "Tn": r.randint(1, 6),
            "c1": r.random() < 0.7, "c2": r.random() < 0.7, "omega": round(r.uniform(0.1, 1.5), 3),
            "wrap": r.random() < 0.3, "cbroad": r.random() < 0.2, "variant": r.choice(["plain", "plain", "custom-forward", "prop-only"])}
+    cfg["bcast2"] = kind == "LTI" and r.random() < 0.3
     ro = rng.stream(seed, "ops")
     n_ops = ro.randint(2, 40 if tier == "thorough" else 25)
     w = {"call": 5, "read": 3, "readtime": 1, "deepcopy": ro.choice([0, 0, 1]), "roundtrip": ro.choice([0, 0, 1]), "reset": ro.choice([0, 1, 2]), "settime": ro.choice([0, 1, 2]),
@@ -214,10 +215,16 @@ def execute(plan, prop, out, tr):
     else:
         Tn = c["Tn"] if kind == "LTV" else None
         st = (Tn,) if Tn else ()
-        mats = {"A": rng.randn(s, ("A",), bs + st + (n, n), dt, 0.7), "B": rng.randn(s, ("B",), bs + st + (n, m), dt),
-                "C": rng.randn(s, ("C",), bs + st + (q, n), dt), "D": rng.randn(s, ("D",), bs + st + (q, m), dt),
-                "c1": rng.randn(s, ("c1",), bs + st + (n,), dt) if c["c1"] else None,
-                "c2": rng.randn(s, ("c2",), bs + st + (q,), dt) if c["c2"] else None}
+        bm = bs
+        if kind == "LTI" and bs and c.get("bcast2"):
+            # S systems against K states: matrices (S,1,..) and states (K,..) broadcast to (S,K,..); S == K is the
+            # coincidence in which a one-to-one pairing would still have a legal shape
+            bm = bs + (1,)
+            out.probe("lti:systems-x-states-broadcast")
+        mats = {"A": rng.randn(s, ("A",), bm + st + (n, n), dt, 0.7), "B": rng.randn(s, ("B",), bm + st + (n, m), dt),
+                "C": rng.randn(s, ("C",), bm + st + (q, n), dt), "D": rng.randn(s, ("D",), bm + st + (q, m), dt),
+                "c1": rng.randn(s, ("c1",), bm + st + (n,), dt) if c["c1"] else None,
+                "c2": rng.randn(s, ("c2",), bm + st + (q,), dt) if c["c2"] else None}
         var = c.get("variant", "plain")
         if kind == "LTI" and c.get("cbroad") and not bs:
             # constants with a broader batch shape than A x + B u: the sum broadcasts
@@ -268,7 +275,10 @@ def execute(plan, prop, out, tr):
             x = rng.randn(s, ("x", i), bs + (n,), dt); u = rng.randn(s, ("u", i), bs + (m,), dt)
             xb, ub = x.clone(), u.clone()
             try:
-                xn, y = sysm(x, u)
+                if rng.H(s, "kwcall", i) % 3 == 0:
+                    xn, y = sysm(state=x, input=u); out.probe("call:keyword-arguments")
+                else:
+                    xn, y = sysm(x, u)
             except Exception as e:
                 raise Violation("C15.raises", "system call raised %s: %s" % (type(e).__name__, str(e)[:200]), i, "raises:call")
             if kind == "NLS":
@@ -398,7 +408,12 @@ def execute(plan, prop, out, tr):
                 want = lin_mats(clock); why = " at time %d" % clock; keyx = ""
             for k in ("A", "B", "C", "D", "c1", "c2"):
                 try:
-                    got = getattr(sysm, k)
+                    if rng.H(s, "nograd", i) % 4 == 0:
+                        with torch.no_grad():
+                            got = getattr(sysm, k)
+                        out.probe("read:under-no_grad")
+                    else:
+                        got = getattr(sysm, k)
                 except Exception as e:
                     raise Violation("C15.raises", "reading %s raised %s: %s" % (k, type(e).__name__, str(e)[:200]), i,
                                     "raises:read")
